@@ -824,6 +824,9 @@ impl TypeChecker {
                     );
                 }
                 let (value_ret, value) = self.expression(value, ctx)?;
+                // What is stored in the variant has to be a value.
+                self.add_constraint(value, *span, Constraint::Variable);
+                self.check_constraints(*span, ctx, value)?;
                 // TODO[ed]: We should be able to do without this!
                 let enum_ty = self.copy(self.variables[*ty].ty);
                 self.add_constraint(
@@ -1222,6 +1225,8 @@ impl TypeChecker {
                 let mut ret = None;
                 for (key, expr) in fields {
                     let (inner_ret, expr_ty) = self.expression(expr, ctx)?;
+                    self.add_constraint(expr_ty, expr.span(), Constraint::Variable);
+                    self.check_constraints(expr.span(), ctx, expr_ty)?;
                     ret = self.unify_option(*span, ctx, ret, inner_ret)?;
                     self.unify(expr.span(), ctx, expr_ty, fields_and_types[key].1)?;
                 }
@@ -1234,6 +1239,8 @@ impl TypeChecker {
                 let mut ret = None;
                 for expr in values.iter() {
                     let (inner_ret, ty) = self.expression(expr, ctx)?;
+                    self.add_constraint(ty, expr.span(), Constraint::Variable);
+                    self.check_constraints(expr.span(), ctx, ty)?;
                     tys.push(ty);
                     ret = self.unify_option(*span, ctx, ret, inner_ret)?;
                 }
@@ -1245,7 +1252,9 @@ impl TypeChecker {
                 let mut ret = None;
                 for expr in values.iter() {
                     let (e_ret, e) = self.expression(expr, ctx)?;
+                    self.add_constraint(e, expr.span(), Constraint::Variable);
                     self.unify(*span, ctx, inner_ty, e)?;
+                    self.check_constraints(expr.span(), ctx, e)?;
                     ret = self.unify_option(*span, ctx, ret, e_ret)?;
                 }
                 with_ret(ret, self.push_type(Type::List(inner_ty)))
